@@ -53,7 +53,10 @@ def run_case(case):
     pty = Pty(h, w)
     try:
         out = OutStream(term, pty)
-        win = FullscreenWindow(out_stream=out, hide_cursor=case.get("hide_cursor", True))
+        if case.get("hide_cursor", True) and case.get("junk", 0) % 2:
+            win = FullscreenWindow(out_stream=out)  # hide_cursor defaults to True
+        else:
+            win = FullscreenWindow(out_stream=out, hide_cursor=case.get("hide_cursor", True))
         _, e = call(win.__enter__)
         if e is not None:
             res.viol("enter_raised", error=exc_str(e))
